@@ -156,11 +156,11 @@ def opParse (j : Json) : Json :=
 def opLayout (j : Json) : Json :=
   match getDef j, getNat j "psize" with
   | .ok (_, _, some d), .ok ps =>
-    if !d.modelled then Json.str "unmodelled"
+    if !d.modelled ps then Json.str "unmodelled"
     else
       let ref : Json := match refDef ps d with
         | some L => Json.mkObj [("size", jnat L.size), ("align", jnat L.align), ("offs", jlist jnat L.offs),
-                                ("entries", jlist offJson (refEntries ps d.fields L.offs)),
+                                ("entries", jlist offJson (refEntries ps d.isUnion d.fields L.offs)),
                                 ("mask", Json.str (hexOf (refMaskDef ps d)))]
         | none => Json.null
       Json.mkObj [("size", optNatJson (d.sizeV ps)), ("align", jnat (d.alignV ps)),
@@ -180,11 +180,11 @@ def instSizes (ps : Nat) (data : Bytes) (pos : Nat) (d : Def) : Option (List (Op
 def opUnpack (j : Json) : Json :=
   match getDef j, getNat j "psize", getHex j "data", getNat j "offset" with
   | .ok (_, _, some d), .ok ps, .ok data, .ok pos =>
-    if !d.modelled then Json.str "unmodelled"
+    if !d.modelled ps then Json.str "unmodelled"
     else
       match unpackDef ps data pos d with
       | none => Json.mkObj [("ok", Json.bool false)]
-      | some (v, n, m) =>
+      | some (v, n, m, cflag) =>
         let offs : Json :=
           if d.kind == .typedef then Json.null
           else match instSizes ps data pos d with
@@ -200,7 +200,8 @@ def opUnpack (j : Json) : Json :=
           | none => Json.str "none"
         Json.mkObj [("ok", Json.bool true), ("value", valJson v), ("len", jnat n), ("mask", Json.str (hexOf m)),
                     ("offsets", offs), ("packed", packed), ("refvalue", refv),
-                    ("canon", Json.str (hexOf (canon m (data.drop pos))))]
+                    ("canon", Json.str (hexOf (canon m (data.drop pos)))),
+                    ("canonical", Json.bool cflag), ("wf", Json.bool (d.wf ps))]
   | .ok (_, _, none), _, _, _ => jerr "def"
   | .error e, _, _, _ => jerr e
   | _, _, _, _ => jerr "args"
@@ -208,7 +209,7 @@ def opUnpack (j : Json) : Json :=
 def opPack (j : Json) : Json :=
   match getDef j, getNat j "psize", j.getObjVal? "value" with
   | .ok (_, _, some d), .ok ps, .ok vj =>
-    if !d.modelled then Json.str "unmodelled"
+    if !d.modelled ps then Json.str "unmodelled"
     else match jsonVal vj with
       | none => jerr "value"
       | some v =>
